@@ -142,6 +142,10 @@ type Rules struct {
 	MinPairs *uint64 `json:"min_pairs,omitempty"` // map
 	MaxPairs *uint64 `json:"max_pairs,omitempty"`
 
+	MultipleOf *int64  `json:"multiple_of,omitempty"` // integer
+	MinProps   *uint64 `json:"min_properties,omitempty"` // object
+	MaxProps   *uint64 `json:"max_properties,omitempty"`
+
 	In    []string `json:"in,omitempty"` // enum
 	NotIn []string `json:"not_in,omitempty"`
 }
